@@ -67,6 +67,7 @@ pub fn run(op: &str, case: &Value) -> Value {
                 Err(p) => res_other(&mut m, "panic", &p),
             }
         }
+        "helper" => helper(case, &mut m),
         "ts" => ts(case, &mut m),
         "foldsize" => foldsize(case, &mut m),
         "err" => errtable(case, &mut m),
@@ -475,5 +476,28 @@ fn leakfn(case: &Value, m: &mut Map<String, Value>) {
             res_ok(m, &[]);
             m.insert("renders".into(), Value::Array(evs));
         }
+    }
+}
+
+
+/// The small byte-level helpers the canonicaliser is built from (public under `unstable`).
+fn helper(case: &Value, m: &mut Map<String, Value>) {
+    let f = get_str(case, "f").to_string();
+    let b = get_bytes(case, "b");
+    m.insert("b".into(), jbytes(&b));
+    let r = guarded(|| -> Vec<u8> {
+        match f.as_str() {
+            "trim" => c::trim_ascii(&b).to_vec(),
+            "trim_start" => c::trim_ascii_start(&b).to_vec(),
+            "trim_end" => c::trim_ascii_end(&b).to_vec(),
+            "hex" => c::u8_to_upper_hex(b[0]).to_vec(),
+            "unres" => vec![c::is_rfc3986_unreserved(b[0]) as u8],
+            "latin1" => c::latin1_to_string(&b).into_bytes(),
+            _ => unreachable!(),
+        }
+    });
+    match r {
+        Ok(out) => res_ok(m, &out),
+        Err(p) => res_other(m, "panic", &p),
     }
 }
